@@ -83,7 +83,7 @@ def prepareDate : Val → R Val
   | .datetime _ true => .error .other                         -- local date of an aware datetime: not modelled
   | .str s => match dateFromIso s with
       | some o => .ok (.int ((o : Int) - DAYS_SHIFT))
-      | none => .error .value
+      | none => .ok (.str s)      -- not an ISO date: returned unchanged
   | v => .ok v
 
 def prepareTimeMillis : Val → R Val
